@@ -1,6 +1,6 @@
 import Driver.Proto
 import ScrapliModel.Netconf.Store
-namespace Driver
+namespace Driver.C08
 open Scrapli Scrapli.Netconf.Store
 
 /-! Line protocol for property C08 (arguments after the leading `c08` token)
@@ -126,4 +126,4 @@ def handleC08 : List String → String
     | _, _ => "bad-op"
   | _ => "bad-op"
 
-end Driver
+end Driver.C08
